@@ -20,6 +20,7 @@ import (
 	kemtypes "github.com/flant/shell-operator/pkg/kube_events_manager/types"
 	"github.com/flant/shell-operator/pkg/metric"
 	"github.com/flant/shell-operator/pkg/utils/measure"
+	"github.com/flant/shell-operator/pkg/utils/verifpoint"
 )
 
 type resourceInformer struct {
@@ -388,6 +389,8 @@ func (ei *resourceInformer) handleWatchEvent(object interface{}, eventType kemty
 			WatchEvents: []kemtypes.WatchEventType{eventType},
 			Objects:     []kemtypes.ObjectAndFilterResult{*objFilterRes},
 		}
+
+		verifpoint.Hit("informer.w1")
 
 		// fix race with enableKubeEventCb.
 		eventCbEnabled := false
